@@ -51,6 +51,7 @@ type Result struct {
 	Unsupported  map[string]int      `json:"unsupported"`
 	MustFail     map[string]int      `json:"must_fail_sat"`
 	MustFailDecl []string            `json:"must_fail_declared"`
+	Twins        map[string][]map[string]interface{} `json:"twins,omitempty"`
 	Notes        map[string]int      `json:"notes"`
 	Solver       string              `json:"solver"`
 	Verdict      string              `json:"verdict"`
@@ -251,6 +252,7 @@ func runEntry(prog *ssa.Program, pkgs []*ssa.Package, entry, pkgPath string, pm 
 		res.MustFailDecl = append(res.MustFailDecl, k)
 	}
 	sort.Strings(res.MustFailDecl)
+	res.Twins = eng.twinVec
 	var tags []string
 	for k := range eng.oblig {
 		tags = append(tags, k)
